@@ -107,6 +107,8 @@ def gen_history(seed, label, *, encrypted=None, max_users=3, nops=(3, 10), destr
             prev = fs
             op = {'op': 'snapshot', 'u': u, 'files': fs, 'at': at, 'mt': rng.randrange(10**9, 2 * 10**9),
                   'note': rng.choice([None, None, 'note ' + ''.join(rng.choice('abcxyz 012') for _ in range(7))])}
+            if substream(seed, f'{label}/mt{len(ops)}').random() < 0.06:
+                op['mt'] = 0        # files stamped with the epoch itself (mtime_ns == 0 for the first of them)
             if crash_snapshots and rng.random() < 0.3:
                 op['crash_at'] = rng.randrange(0, 8)
             if overlap and rng.random() < 0.3:
@@ -156,9 +158,14 @@ def gen_history(seed, label, *, encrypted=None, max_users=3, nops=(3, 10), destr
     # threads) from one command to the next; the others start a process per command, as the CLI does
     lrng = substream(seed, label + '/live')
     live = sorted(u for u in range(len(users)) if lrng.random() < 0.5) if lrng.random() < 0.4 else []
+    shared_object = bool(live) and len(live) > 1 and lrng.random() < 0.5
+    if shared_object:
+        # one program, one Repository object, hence one concurrency setting for everybody it serves
+        for u in live:
+            users[u]['N'] = users[live[0]]['N']
     return {
         'seed': seed, 'sched_seed': seed, 'settings': settings, 'users': users, 'contents': contents, 'ops': ops,
-        'decoys': dec, 'live': live, 'shared_object': bool(live) and len(live) > 1 and lrng.random() < 0.5,
+        'decoys': dec, 'live': live, 'shared_object': shared_object,
         'flavour': rng.choice(['sync', 'async']), 'lat_kind': rng.choice(['zero', 'uniform', 'heavy']),
         'lat': rng.choice([0.001, 0.02]), 'opts': world.SchedOpts.swarm(rng).as_dict(),
         'list_order': rng.choice(['sorted', 'shuffled']),
@@ -290,6 +297,7 @@ class History:
         self.epoch = self.W.env.epoch
         self.keyfiles = []      # serialized key files emitted (for C05)
         self.stdouts = []       # (op, stdout) of init / add-key
+        self.extra_outputs = [] # (label, bytes) of anything else the commands emitted (key files written with -o)
         self.all_uploads = []   # (name, bytes) ever uploaded (C05 monitor)
         self.live_users = set(case.get('live') or ())
         self.W.live_shared = bool(case.get('shared_object'))
@@ -339,6 +347,17 @@ class History:
                 raise RuntimeError(f'add-key failed in harness: {r.outcome()} {r.exc!r}')
             self.stdouts.append(('add-key', r.stdout))
             self.keyfiles.append(self.clients[i].key)
+            if case.get('key_output'):
+                # the same add-key with -o <file>, issued twice: the file is new the first time and exists the second time;
+                # whatever lands in the file and on stdout is observable
+                kp = W.dir / f'key-{i}.out'
+                throwaway = world.Client(f'x{i}', password=self.clients[i].password, concurrent=1)
+                for rep in range(2):
+                    rr = W.add_key(parent, throwaway, settings=ks_scrypt, opts=seq, profile=W.profile(lat_kind='zero'), key_output_path=kp, **kw)
+                    self.stdouts.append((f'add-key -o (file {"existed" if rep else "new"})', rr.stdout))
+                    if kp.exists():
+                        self.extra_outputs.append((f'key file written by add-key -o ({"second" if rep else "first"} time)', kp.read_bytes()))
+                    self.probe('addkey_output_file_existing' if rep else 'addkey_output_file_new')
         cfg = W.state.objects['config']
         for i, c in enumerate(self.clients):
             try:
@@ -1000,6 +1019,7 @@ class History:
             hay.append((f'key file {i}', k))
         for what, out in self.stdouts:
             hay.append((f'stdout of {what}', out.encode('utf-8', 'surrogateescape')))
+        hay.extend(self.extra_outputs)
         needles = []
 
         def add(label, raw, text=False):
